@@ -494,6 +494,272 @@ def _contains(root, node):
   return any(x is node for x in ast.walk(root))
 
 
+def _den_bases(den):
+  """(collections S with den built from len(S), other quantities q the denominator reads: maximal name/attribute/subscript chains)"""
+  colls, names = [], []
+  skip = set()
+  for x in ast.walk(den):
+    if isinstance(x, ast.Call) and isinstance(x.func, ast.Name) and x.func.id == 'len' and len(x.args) == 1:
+      colls.append(norm(x.args[0]))
+      skip |= {id(y) for y in ast.walk(x)}
+
+  def visit(x):
+    if id(x) in skip:
+      return
+    if isinstance(x, (ast.Attribute, ast.Subscript, ast.Name)):
+      root = x
+      while isinstance(root, (ast.Attribute, ast.Subscript)):
+        root = root.value
+      if isinstance(root, ast.Name):
+        if not (isinstance(x, ast.Name) and x.id in ('len', 'float', 'int', 'abs', 'max', 'min', 'np', 'math')):
+          names.append(norm(x))
+        return
+    if isinstance(x, ast.Call):
+      for a_ in list(x.args) + [k.value for k in x.keywords]:
+        visit(a_)
+      if isinstance(x.func, ast.Attribute):
+        names.append(norm(x))          # a method result: the call text itself is the quantity
+      return
+    for ch in ast.iter_child_nodes(x):
+      visit(ch)
+  visit(den)
+  return colls, names
+
+
+def _implicit_conditions(root, sub):
+  """Tests that must have held for `sub` to be evaluated inside the expression `root`: the earlier operands of enclosing
+  and/or chains and the tests of enclosing conditional expressions -> list of (expr, truth)."""
+  out = []
+
+  def walk(e):
+    if e is sub:
+      return True
+    if isinstance(e, ast.BoolOp):
+      for i, v in enumerate(e.values):
+        if walk(v):
+          for prev in e.values[:i]:
+            out.append((prev, isinstance(e.op, ast.And)))
+          return True
+      return False
+    if isinstance(e, ast.IfExp):
+      if walk(e.body):
+        out.append((e.test, True))
+        return True
+      if walk(e.orelse):
+        out.append((e.test, False))
+        return True
+      return walk(e.test)
+    if isinstance(e, (ast.Lambda, ast.FunctionDef)):
+      return False
+    return any(walk(ch) for ch in ast.iter_child_nodes(e))
+  walk(root)
+  return out
+
+
+def _emptiness_info(e, S, classify):
+  """What the truth / falsity of test `e` says about the collection S: (when true, when false), each 'nonempty', 'empty'
+  or 'any'; None when the test is not understood.  Besides direct tests of S: S - X or S & X being non-empty implies S is
+  non-empty (their emptiness says nothing), S | X being empty implies S is empty."""
+  from mmsa import abspaths
+  c = classify(e)
+  if c is not None and c[0] == 'S:empty':
+    return ('empty', 'nonempty') if c[1] else ('nonempty', 'empty')
+  inner, neg = e, False
+  lc = abspaths._len_cmp(e)
+  if lc is not None:
+    inner, neg = lc[0], lc[1]          # the comparison holds exactly when `inner` is empty (neg) / non-empty
+  elif isinstance(e, ast.Call) and isinstance(e.func, ast.Name) and e.func.id in ('len', 'bool') and len(e.args) == 1:
+    inner = e.args[0]
+  while isinstance(inner, ast.Call) and isinstance(inner.func, ast.Name) and inner.func.id in ('set', 'list', 'sorted', 'tuple', 'frozenset') and len(inner.args) == 1:
+    inner = inner.args[0]
+  res = None
+  if isinstance(inner, ast.BinOp):
+    l, r = norm(inner.left), norm(inner.right)
+    if isinstance(inner.op, ast.Sub) and l == S:
+      res = ('nonempty', 'any')
+    elif isinstance(inner.op, ast.BitAnd) and S in (l, r):
+      res = ('nonempty', 'any')
+    elif isinstance(inner.op, ast.BitOr) and S in (l, r):
+      res = ('any', 'empty')
+  elif isinstance(inner, ast.Call) and isinstance(inner.func, ast.Attribute) and norm(inner.func.value) == S and inner.func.attr in ('difference', 'intersection'):
+    res = ('nonempty', 'any')
+  if res is None:
+    return None
+  return (res[1], res[0]) if neg else res
+
+
+def _empty_reaches(B, f, node, S, implicit=(), depth=3, chain=()):
+  """Can the collection S (text) be empty when control reaches `node` of f?  ('violation'|'undecided'|'safe', why).
+  Paths entry -> node are evaluated over the fact "S is empty" (abspaths.SetFacts); when S is a parameter of a private
+  function the question is asked again at every call site for the actual argument."""
+  from mmsa import abspaths
+  ctx = FuncCtx.of(f)
+  g, rd = ctx.g, ctx.rd
+  classify = abspaths.SetFacts({S: 'S'})
+  rel = lambda e: re.search(r'(?<![\w.])%s(?!\w)' % re.escape(S), norm(e)) is not None
+  try:
+    paths = list(g.enumerate_paths(g.entry, lambda n_: n_ is node, cfgmod.no_exc, max_paths=3000, back_limit=0))
+  except Undecided as ex_:
+    return 'undecided', str(ex_)
+  status, wit = 'rejected', ''
+  extra = [(rd.expand(node, ie)[0], it) for ie, it in implicit]
+  for path in paths:
+    pf = pathcond.PathFacts(path, rd)
+    if not pf.feasible:
+      continue
+    for conj in pf.dnf:
+      lits = list(conj)
+      for iex, it in extra:
+        alts = pathcond.literals(iex, it)
+        lits = lits + (alts[0] if len(alts) == 1 else [(iex, it)])
+      unknown, clash = [], False
+      for e, t in lits:
+        if not rel(e):
+          continue
+        info = _emptiness_info(e, S, classify)
+        if info is None:
+          unknown.append(norm(e)[:50])
+        elif info[0 if t else 1] == 'nonempty':      # the literal asserts "S is not empty"
+          clash = True
+          break
+      if clash:
+        continue
+      if unknown:
+        if status == 'rejected':
+          status, wit = 'unknown', unknown[0]
+      else:
+        status, wit = 'accepted', pf.text()[:120] or 'no test of %s is passed' % S
+        break
+    if status == 'accepted':
+      break
+  here = '%s%s' % (f.name, (' <- ' + ' <- '.join(chain)) if chain else '')
+  if status == 'rejected':
+    return 'safe', ''
+  if status == 'unknown':
+    return 'undecided', 'the test `%s` on %s in %s is not understood' % (wit, S, f.name)
+  root = S.split('.')[0].split('[')[0]
+  if S in f.params:
+    if not f.name.startswith('_') or f.name.startswith('__'):
+      return 'violation', 'an empty %s passed to the public %s reaches the division (%s)' % (S, here, wit)
+    sites = B.call_sites().get(f.qualname, [])
+    if not sites or depth <= 0:
+      return 'undecided', 'the non-emptiness of the parameter %s of %s depends on its callers' % (S, f.name)
+    idx = f.params.index(S)
+    off = 1 if f.kind in ('method', 'getter', 'setter') else 0
+    worst = ('safe', '')
+    for gfun, call, n in sites:
+      a = call.args[idx - off] if len(call.args) > idx - off >= 0 else au.kwarg(call, S)
+      if a is None:
+        return 'undecided', 'call site of %s without a visible argument for %s' % (f.name, S)
+      a = FuncCtx.of(gfun).rd.expand(n, a)[0]
+      v, why = _empty_reaches(B, gfun, n, norm(a), (), depth - 1, chain + (f.name,))
+      if v == 'violation':
+        return v, why
+      if v == 'undecided':
+        worst = (v, why)
+    return worst
+  if root == 'self' or root in f.params:
+    return 'undecided', '%s is a field/component whose non-emptiness rests on an invariant that is not established here' % S
+  # a local collection: how it is built is not modelled, but no test protects the division
+  tested_here = any(t.kind == 'test' and any(rel(e) and classify(e) is not None for conj in pathcond.literals(rd.expand(t, t.expr)[0], True) for e, _t in conj) for t in g.nodes)
+  if tested_here or implicit:
+    return 'violation', 'an empty %s reaches the division in %s on the path where %s' % (S, here, wit)
+  return 'undecided', 'the local collection %s is never tested in %s; whether it can be empty depends on how it is built' % (S, f.name)
+
+
+def _unguarded_division(B, f, ctx, node, sub):
+  """A division whose denominator is not provably positive.
+  * denominator len(S) (directly, through one local, or through a parameter whose actual argument is a length): the
+    paths to the division are evaluated over the abstract fact "S is empty" (_empty_reaches) -- a witness path is a
+    VIOLATION, tests on S that are not understood give UNDECIDED;
+  * other denominators: VIOLATION only when nothing in the function ever tests the quantity and it is neither a
+    parameter with call sites nor a stored field (whose bounds live elsewhere); otherwise UNDECIDED."""
+  g, rd = ctx.g, ctx.rd
+  den = sub.right
+  colls, names = _den_bases(den)
+  for nm in list(names):
+    if re.fullmatch(r'\w+', nm):
+      for d in rd.defs_at(node, nm):
+        if d.how == 'assign' and d.value is not None:
+          c2, n2 = _den_bases(d.value)
+          colls += [c for c in c2 if c not in colls]
+          names += [x for x in n2 if x not in names]
+  root_expr = None
+  for e_ in ctx.node_exprs(node):
+    if any(x is sub for x in ast.walk(e_)):
+      root_expr = e_
+  implicit = _implicit_conditions(root_expr, sub) if root_expr is not None else []
+
+  def as_len(e):
+    while isinstance(e, ast.Call) and isinstance(e.func, ast.Name) and e.func.id in ('float', 'int') and len(e.args) == 1:
+      e = e.args[0]
+    if isinstance(e, ast.Call) and isinstance(e.func, ast.Name) and e.func.id == 'len' and len(e.args) == 1:
+      return norm(e.args[0])
+    return None
+  den_x = rd.expand(node, den)[0]
+  S = as_len(den_x)
+  if S is not None:
+    v, why = _empty_reaches(B, f, node, S, implicit)
+    if v == 'safe':
+      return 'undecided', 'no path with an empty %s reaches the division, yet no positive bound was derived' % S
+    return v, why
+  # a parameter that receives a length at its call sites (n_treatment_geos = len(treatment_group))
+  if isinstance(den_x, ast.Name) and den_x.id in f.params and (f.name.startswith('_') and not f.name.startswith('__')):
+    sites = B.call_sites().get(f.qualname, [])
+    idx = f.params.index(den_x.id)
+    off = 1 if f.kind in ('method', 'getter', 'setter') else 0
+    own_guard = any(t.kind == 'test' and re.search(r'(?<![\w.])%s(?!\w)' % re.escape(den_x.id), norm(t.expr)) for t in g.nodes)
+    if sites and not own_guard and not implicit:
+      worst = None
+      for gfun, call, n in sites:
+        a = call.args[idx - off] if len(call.args) > idx - off >= 0 else au.kwarg(call, den_x.id)
+        S2 = as_len(FuncCtx.of(gfun).rd.expand(n, a)[0]) if a is not None else None
+        if S2 is None:
+          if a is not None and positive(B.lb(gfun, a, n, nonempty=nonempty_facts(gfun, n))):
+            continue          # this call site passes a provably positive number
+          worst = worst or ('undecided', 'the argument for %s at a call site of %s is not a length' % (den_x.id, f.name))
+          continue
+        v, why = _empty_reaches(B, gfun, n, S2, (), 2, (f.name,))
+        if v == 'violation':
+          return v, why
+        if v == 'undecided':
+          worst = (v, why)
+      return worst or ('undecided', 'every call site passes the length of a collection that is not empty there, yet no positive bound was derived')
+  names += ['len(%s)' % c for c in colls if 'len(%s)' % c not in names] + [c for c in colls if c not in names]
+  # plain quantities
+  base_texts = set(names)
+  mentions = []
+  inside = {id(y) for y in ast.walk(sub)}
+  for x in walk_no_nested(f.node):
+    test_like = []
+    if isinstance(x, (ast.If, ast.While, ast.IfExp, ast.Assert)):
+      test_like.append(x.test)
+    elif isinstance(x, ast.BoolOp):
+      test_like += x.values
+    elif isinstance(x, ast.Compare):
+      test_like.append(x)
+    elif isinstance(x, ast.comprehension):
+      test_like += x.ifs
+    for tl in test_like:
+      if id(tl) in inside:
+        continue
+      for y in ast.walk(tl):
+        if id(y) in inside:
+          continue
+        if isinstance(y, (ast.Name, ast.Attribute, ast.Subscript, ast.Call)) and norm(y) in base_texts:
+          mentions.append(norm(tl)[:50])
+          break
+  if mentions:
+    return 'undecided', 'the function tests the same quantity in a form that is not followed (`%s`)' % mentions[0]
+  params = [nm for nm in names if nm in f.params]
+  if params and B.call_sites().get(f.qualname):
+    return 'undecided', 'it depends on the parameter %s, whose bounds at the call sites are not established' % params[0]
+  fields = [nm for nm in base_texts if re.fullmatch(r'self\.\w+', nm) and f.cls is not None and nm.split('.')[1] in _stored_fields(f.cls)]
+  if fields:
+    return 'undecided', 'it depends on the field %s, whose invariant is not established' % fields[0]
+  return 'violation', 'no test of %s anywhere in %s' % (', '.join(sorted(base_texts))[:80] or 'it', f.name)
+
+
 def r1_division(rep, closure, T, K, B):
   n_div = n_py = 0
   for q, f in sorted(closure.items()):
@@ -522,11 +788,48 @@ def r1_division(rep, closure, T, K, B):
           n_py += 1
           ne = nonempty_facts(f, node)
           b = B.lb(f, sub.right, node, nonempty=ne)
-          rep.check(positive(b), 'R1c/division', '%s: Python-number division, denominator provably > 0 (%s)' % (norm(sub)[:50], b), f.qualname,
-                    norm(sub)[:120], 'Python-number division %s: the denominator %s can be zero (lower bound %s) — ZeroDivisionError escapes the search'
-                    % (norm(sub)[:80], norm(sub.right)[:50], b), f.loc(sub))
+          if positive(b):
+            rep.ok('R1c/division', '%s: Python-number division, denominator provably > 0 (%s)' % (norm(sub)[:50], b), loc=f.loc(sub))
+            continue
+          verdict, why = _unguarded_division(B, f, ctx, node, sub)
+          if verdict == 'violation':
+            rep.violation('R1c/division', f.qualname, norm(sub)[:120],
+                          'Python-number division %s: the denominator %s can be zero (lower bound %s; %s) — ZeroDivisionError escapes the search'
+                          % (norm(sub)[:80], norm(sub.right)[:50], b, why), f.loc(sub))
+          else:
+            rep.undecided('R1c/division', norm(sub)[:80], 'the denominator %s is not provably non-zero, but %s' % (norm(sub.right)[:50], why), f.loc(sub))
   rep.floor('division sites in the closure', n_div, 25)
   rep.extra['python_number_divisions'] = n_py
+
+
+def _while_terminates(w):
+  """(True, why) recognised terminating; (False, why) recognised non-terminating; (None, why) not decided."""
+  body_nodes = [x for b_ in w.body for x in ast.walk(b_)]
+  exits = [x for x in body_nodes if isinstance(x, (ast.Break, ast.Return, ast.Raise))]
+  const_true = isinstance(w.test, ast.Constant) and bool(w.test.value)
+  if const_true and not exits:
+    return False, 'the guard is constantly true and the body has no break, return or raise'
+  # draining an iterator: try: v = next(it) / except StopIteration: break
+  for x in body_nodes:
+    if isinstance(x, ast.Try):
+      has_next = any(isinstance(y, ast.Call) and isinstance(y.func, ast.Name) and y.func.id == 'next' and len(y.args) == 1 for b_ in x.body for y in ast.walk(b_))
+      stops = any(h.type is not None and 'StopIteration' in norm(h.type) and any(isinstance(y, (ast.Break, ast.Return)) for b_ in h.body for y in ast.walk(b_))
+                  for h in x.handlers)
+      if has_next and stops and x in w.body:
+        return True, 'each iteration draws from an iterator and the loop ends on StopIteration'
+  # counter loops: while i < N with i += c on every iteration (top-level statement of the body) and no other store to i / N
+  t = w.test
+  if isinstance(t, ast.Compare) and len(t.ops) == 1 and isinstance(t.ops[0], (ast.Lt, ast.LtE, ast.NotEq)) and isinstance(t.left, ast.Name):
+    i = t.left.id
+    bound_names = {y.id for y in ast.walk(t.comparators[0]) if isinstance(y, ast.Name)}
+    incs = [x for x in w.body if isinstance(x, ast.AugAssign) and norm(x.target) == i and isinstance(x.op, ast.Add) and isinstance(x.value, ast.Constant)
+            and isinstance(x.value.value, int) and x.value.value >= 1] + \
+           [x for x in w.body if isinstance(x, ast.Assign) and len(x.targets) == 1 and norm(x.targets[0]) == i and re.fullmatch(r'%s \+ [1-9]\d*' % i, norm(x.value))]
+    stores = [y for y in body_nodes if isinstance(y, ast.Name) and isinstance(y.ctx, ast.Store) and (y.id == i or y.id in bound_names)]
+    conts = [y for y in body_nodes if isinstance(y, ast.Continue)]
+    if len(incs) == 1 and len(stores) == 1 and not conts and not (isinstance(t.ops[0], ast.NotEq) and incs[0].value.value != 1 if isinstance(incs[0], ast.AugAssign) else False):
+      return True, 'the counter %s grows by a positive constant in every iteration towards a loop-invariant bound' % i
+  return None, 'guard `%s`' % norm(t)[:60]
 
 
 def r2_termination(repo, rep, closure):
@@ -536,14 +839,24 @@ def r2_termination(repo, rep, closure):
   for q, f in sorted(closure.items()):
     for s in walk_no_nested(f.node):
       if isinstance(s, ast.While) and f.name != 'greedy_search':
-        rep.violation('R2/termination', f.qualname, 'while ' + norm(s.test)[:80],
-                      'a while loop in %s (reachable from the searches) has no termination argument' % f.qualname, f.loc(s))
+        verdict, why = _while_terminates(s)
+        if verdict is True:
+          rep.ok('R2/termination', '%s: while %s terminates (%s)' % (f.name, norm(s.test)[:40], why), loc=f.loc(s))
+        elif verdict is False:
+          rep.violation('R2/termination', f.qualname, 'while ' + norm(s.test)[:80],
+                        'a while loop in %s (reachable from the searches) cannot terminate: %s' % (f.qualname, why), f.loc(s))
+        else:
+          rep.undecided('R2/termination', '%s: while %s' % (f.name, norm(s.test)[:60]), 'no termination argument is recognised for this loop (%s)' % why, f.loc(s))
       if isinstance(s, ast.For):
         n_loops += 1
         it = norm(s.iter)
         bad = re.search(r'itertools\.(count|cycle|repeat)\(', it) or it.startswith('iter(')
+        exits = any(isinstance(x, (ast.Break, ast.Return, ast.Raise)) for b_ in s.body for x in ast.walk(b_))
+        if bad and exits:
+          rep.undecided('R2/termination', '%s: for ... in %s' % (f.name, it[:60]), 'the iterator is unbounded; whether the exit inside the loop is always reached is not decided', f.loc(s))
+          continue
         rep.check(not bad, 'R2/termination', 'for loop over a finite iterable: %s' % it[:50], f.qualname, 'for ... in ' + it[:100],
-                  'loop over an unbounded iterator %s' % it[:80], f.loc(s), nontrivial=False)
+                  'loop over an unbounded iterator %s with no exit in its body' % it[:80], f.loc(s), nontrivial=False)
   rep.floor('for loops in the closure', n_loops, 10)
   f = mm.methods.get('greedy_search')
   if f is None:
